@@ -611,4 +611,11 @@ def rule_d(ctx):
     rule_gate_scope(ctx)
 
 
-RULES = [('C06.a', rule_a), ('C06.b', rule_b), ('C06.c', rule_c), ('C06.a', rule_g), ('C06.d', rule_e), ('C06.e+C20.g+C20.i', rule_f), ('C05.a+C05.b+C14.f', rule_d)]
+def rule_genpub(ctx):
+    """A completed generator-backed publisher does not start delivering again on a late request(n) (typestate by
+    re-entry, rules/genpublisher.py)."""
+    from .genpublisher import rule_completed_publisher_stays_completed
+    rule_completed_publisher_stays_completed(ctx, 'C07.e')
+
+
+RULES = [('C06.a', rule_a), ('C06.b', rule_b), ('C06.c', rule_c), ('C06.a', rule_g), ('C06.d', rule_e), ('C06.e+C20.g+C20.i', rule_f), ('C07.e', rule_genpub), ('C05.a+C05.b+C14.f', rule_d)]
